@@ -360,6 +360,60 @@ def conformance(p, a, lib, out, combos, build_args, VOID):
             fmd = [(k, v) for k, v in (e['metadata'] or []) if k == 'x-goog-request-params']
             if m != e['path'] or [Dreq.FromString(x) for x in sreqs] != [Dreq.FromString(x) for x in fraw] or smd != fmd:
                 out['conformance']['mismatches'].append(dict(cell=cell['id'], what=f'server {m} {smd} vs fake {e["path"]} {fmd}'))
+
+        # the asyncio client through a real grpc.aio channel to the same server
+        async def arun():
+            achan = grpc.aio.insecure_channel(f'127.0.0.1:{port}')
+            aclients = {}
+            out['conformance']['aio_calls'] = 0
+            for cell in a['cells']:
+                svc = cell['service']
+                if VOID(cell) and cell['arity'].endswith('_stream'):
+                    continue   # D22: nothing is sent at all
+                C, A = lib.client_cls(svc), lib.client_cls(svc, True)
+                if svc not in aclients:
+                    aclients[svc] = (A(transport=C.get_transport_class('grpc_asyncio')(channel=achan, credentials=AnonymousCredentials())),) + lib.aio(svc)
+                real, fake, fch = aclients[svc]
+                form, vlabel, reqs, rlabel, reply, Dreq, Dresp = [x for x in combos(cell)][-1]
+                raw = [r.SerializeToString() for r in reply] if isinstance(reply, list) else [reply.SerializeToString()]
+                path = f'/{tp}.{svc}/{cell["rpc"]}'
+                replies[path] = raw
+                del seen[:]
+                fch.log.clear()
+                fch.script = [raw] if isinstance(reply, list) else [raw[0]]
+                try:
+                    for client in (real, fake):
+                        ret = getattr(client, cell['py'])(**build_args(cell, form, reqs))
+                        if inspect.isawaitable(ret):
+                            ret = await ret
+                        if cell['arity'].endswith('_stream') and not VOID(cell):
+                            [x async for x in ret]
+                        elif inspect.isawaitable(ret):
+                            await ret
+                        for _ in range(3):
+                            await asyncio.sleep(0)
+                        if client is real and VOID(cell):
+                            # a void client-streaming method returns once connected; the call itself finishes in the
+                            # background (real time on a real channel): wait for the server to have read it
+                            for _ in range(400):
+                                if seen:
+                                    break
+                                await asyncio.sleep(0.005)
+                except BaseException as e:
+                    out['conformance']['mismatches'].append(dict(cell=cell['id'], what=f'aio call failed: {type(e).__name__}: {str(e)[:200]}'))
+                    continue
+                out['conformance']['aio_calls'] += 1
+                if len(seen) != 1 or len(fch.log) != 1:
+                    out['conformance']['mismatches'].append(dict(cell=cell['id'], what=f'aio: server saw {len(seen)} calls, fake {len(fch.log)}'))
+                    continue
+                m, sreqs, smd = seen[0]
+                e = fch.log[0]
+                fraw = e['raw'] if isinstance(e['raw'], list) else [e['raw']]
+                fmd = [(k, v) for k, v in (e['metadata'] or []) if k == 'x-goog-request-params']
+                if m != e['path'] or [Dreq.FromString(x) for x in sreqs] != [Dreq.FromString(x) for x in fraw] or smd != fmd:
+                    out['conformance']['mismatches'].append(dict(cell=cell['id'], what=f'aio: server {m} {smd} vs fake {e["path"]} {fmd}'))
+            await achan.close()
+        asyncio.run(arun())
     finally:
         server.stop(0)
 
